@@ -57,6 +57,21 @@ Theorem C12_named_field_partial :
 Proof. exact parsed_points_named_field. Qed.
 Print Assumptions C12_named_field_partial.
 
+(** FULL STATEMENT (refuted): "the typed accessors of a returned point never fail".
+    scanFields pairs backslashes (an '=' after an ESCAPED backslash separates key and value)
+    while walkFields / FieldIterator look one byte back (that '=' counts as escaped): the line
+        m a\\="x=t,b="
+    is accepted; the iterator sees a boolean field (key up to the x, value t) and a field  b  whose value is a lone
+    double quote, on which StringValue() - hence Fields() - PANICS (slice bounds [1:0]; [VErr 3]
+    in the model).  Replayed on the real code (known finding).  No weakening is proved for this
+    clause (it would need: no backslash in the fields section). *)
+Theorem C12_accessors_total_refuted :
+  map (fun p => v_fields (view p)) (fst (parse_points P_ns 0 bsl_witness))
+    = [[([97; 92; 61; 34; 120], VBool true); ([98], VErr 3)]] /\
+  snd (parse_points P_ns 0 bsl_witness) = [].
+Proof. exact accessor_panic_refuted. Qed.
+Print Assumptions C12_accessors_total_refuted.
+
 (** The error list is exactly the candidate lines (non-blank, non-comment blocks) on which
     parsePoint fails, in order, and the returned points are exactly the results on the
     other candidate lines, in order. *)
